@@ -8,7 +8,7 @@ BOUNDS = {
              "ending in an exception at any sub-step (underflow at the k-th well, overflow at the destination after a successful aspirate, "
              "step > max_volume with auto_split off); both devices; plate 2x2 / trough 3x2; k<=2; <=3 split steps; auto_split on and off; "
              "symbolic labware limits, worklist max_volume and volumes; plus the EVO script commands evo_aspirate / evo_dispense with 1-2 tips (per-tip or "
-             "scalar symbolic volumes) on a plate 4x2 / trough 4x2, decoded with the independent EVO script oracle",
+             "scalar symbolic volumes) on a plate 4x2 / trough 4x2, decoded with the independent EVO script oracle; a NaN volume followed by a step that must be refused (concrete execution, 24 cases)",
     "thorough": "as quick with 4 candidate wells per slot for k=2, <=4 split steps, geometries plate 3x2/8x2 and trough 8x1, all partition modes",
 }
 OUTSIDE = "k>2, more split steps, other geometries; the file written by __exit__ is the record list (C17 decides the writer)"
@@ -40,6 +40,8 @@ def shards(tier):
         out.append(dict(dev=dev, op="transfer", sgeo="p2x2", dgeo="p2x2", same=True, k=2, steps=2, partition_by="auto", washes=[1], ncand=2))
         # both plates constructed (public constructor) from one caller-owned float array: their states must stay independent
         out.append(dict(dev=dev, op="transfer", sgeo="p2x2", dgeo="p2x2", shared_init=True, k=1, steps=2, partition_by="auto", auto_split=True, washes=[1]))
+    # a NaN volume (invalid argument) followed by a step that must be refused: concrete execution on the real numpy
+    out.append(dict(part="nan", concrete=True, k=1, steps=1, op="aspirate", dev="evo"))
     # EVO script commands (multi-tip aspirate / dispense) are pipetting steps of the worklist too
     for cmd in ("evo_aspirate", "evo_dispense"):
         for kind in ("plate", "trough"):
@@ -124,7 +126,49 @@ def describe_evo(ctx, p, outcome):
             f"  pre={c.get('pre')} min={getattr(c.get('lab'), 'min_volume', None)} max={getattr(c.get('lab'), 'max_volume', None)}\n  outcome={outcome[0]} {outcome[1] if outcome[0] == 'exc' else ''} records={list(c['wl']) if 'wl' in c else None}")
 
 
+def scenario_nan(ctx, p):
+    ns = common.rt()
+    c = ctx.ctx
+    dev = ctx.choose("dev", ["evo", "fluent"])
+    op = ctx.choose("op", ["aspirate", "dispense"])
+    form = ctx.choose("form", ["two-calls", "one-call-repeated-well", "labware-then-worklist"])
+    kind = ctx.choose("kind", ["plate", "trough"])
+    lab = ns.Labware("P", 2, 2, min_volume=10, max_volume=300, initial_volumes=100) if kind == "plate" else ns.Trough("P", 2, 2, min_volume=10, max_volume=300, initial_volumes=100)
+    wl = common.make_worklist(ctx, dev, 1000)
+    bad, big = float("nan"), 250.0   # 100 - 250 < 10 and 100 + 250 > 300: the second step must be refused
+    c.update(wl=wl, lab=lab, cfg=(dev, op, form, kind), excs=[])
+    calls = {"two-calls": [lambda: getattr(wl, op)(lab, "A01", bad), lambda: getattr(wl, op)(lab, "A01", big)],
+             "one-call-repeated-well": [lambda: getattr(wl, op)(lab, ["A01", "A01"], [bad, big])],
+             "labware-then-worklist": [lambda: (lab.remove if op == "aspirate" else lab.add)("A01", bad), lambda: getattr(wl, op)(lab, "A01", big)]}[form]
+    for f in calls:
+        try:
+            f()
+        except Exception as ex:  # noqa: BLE001
+            c["excs"].append(type(ex).__name__)
+    return wl
+
+
+def judge_nan(ctx, p, outcome):
+    c = ctx.ctx
+    ctx.reach("ok")
+    vol = 100.0
+    for i, rec in enumerate(c["wl"]):
+        f = rec.split(";")
+        if f[0] == "A":
+            vol -= float(f[6])
+            if vol < 10 - 0.005:
+                ctx.violate("C03: replayed record takes the well below min_volume after a NaN volume was given", info=f"{c['cfg']} records={list(c['wl'])} exceptions={c['excs']}")
+                return
+        elif f[0] == "D":
+            vol += float(f[6])
+            if vol > 300 + 0.005:
+                ctx.violate("C03: replayed record takes the well above max_volume after a NaN volume was given", info=f"{c['cfg']} records={list(c['wl'])} exceptions={c['excs']}")
+                return
+
+
 def scenario(ctx, p):
+    if p.get("part") == "nan":
+        return scenario_nan(ctx, p)
     if p.get("part") == "evo":
         return scenario_evo(ctx, p)
     W = wlops.build(ctx, p)
@@ -137,6 +181,8 @@ def judge(ctx, p, outcome):
     kind, val = outcome
     if kind not in ("ok", "exc"):
         return
+    if p.get("part") == "nan":
+        return judge_nan(ctx, p, outcome)
     if p.get("part") == "evo":
         return judge_evo(ctx, p, outcome)
     W = ctx.ctx["W"]
@@ -165,6 +211,9 @@ _describe01 = __import__("harness.C01", fromlist=["describe"]).describe
 
 
 def describe(ctx, p, outcome):
+    if p.get("part") == "nan":
+        c = ctx.ctx
+        return f"  {c.get('cfg')} records={list(c['wl']) if 'wl' in c else None} exceptions={c.get('excs')}"
     if p.get("part") == "evo":
         return describe_evo(ctx, p, outcome)
     return _describe01(ctx, p, outcome)
